@@ -233,6 +233,18 @@ def verify_function(tu, fc, prop=None, seed=0, robustness=None):
                         r['paths'] = m['paths']
                         r['seconds'] = m['seconds']
                         merged[key] = r
+        if merged is not None:
+            # obligations about the set of all paths of this configuration (e.g. "some input is accepted")
+            try:
+                pvs = [PathView(p.ex, p, cfg, p.env) for p in paths]
+                for ob in fc.ensures_all(pvs):
+                    st, be, det, wit, rp, rpl = check_ob(fc, None, ob, rng)
+                    r = _mk(prop, fc, ob, cfg, st, be, 0, det, path='%s: all %d paths' % (cfg, len(paths)), witness=wit, replayed=rp, replay=rpl)
+                    r['paths'] = 1
+                    merged[r['id']] = r
+                    order.append(r['id'])
+            except Unsupported as ex:
+                unsupported.append((cfg, 'contract cannot be evaluated on the path set: %s' % ex))
         if merged:
             for k in order:
                 r = merged[k]
